@@ -350,6 +350,11 @@ pub struct StakeCfg {
     /// every message (hook addresses are sink contracts) and the notifications are read from the
     /// dispatch trace (messages sent BY the staking contract)
     pub cw20: bool,
+    /// unbonding period in blocks (Height)
+    pub period: u64,
+    /// hooks are registered in the order of `hooks` and removed from the end only (keeps long hook
+    /// lists tractable): AddHook is offered for the next unregistered label, RemoveHook for the last
+    pub sequential_hooks: bool,
     /// indices into CALLERS of the addresses that send the admin/hook calls
     pub callers: Vec<u8>,
     /// the contract has the chain-level admin W (CALLERS[7])
@@ -426,7 +431,7 @@ impl Model for StakeAdmin {
             },
             tokens_per_weight: Uint128::new(cfg.tpw),
             min_bond: Uint128::new(cfg.min_bond),
-            unbonding_period: Duration::Height(1),
+            unbonding_period: Duration::Height(cfg.period),
             admin: cfg.admin.map(|i| a(CALLERS[i as usize])),
         };
         let out = w.instantiate(stake_vt(), &a(STAKE), &a("creator"), &to_json_vec(&msg).unwrap(), &[]);
@@ -465,6 +470,16 @@ impl Model for StakeAdmin {
             out.push(SAct::UpdateAdmin { by, new: Some(0) });
             out.push(SAct::UpdateAdmin { by, new: Some(1) });
             for hook in 0..cfg.hooks.len() as u8 {
+                if cfg.sequential_hooks {
+                    let n = s.r.hooks.len() as u8;
+                    if hook == n {
+                        out.push(SAct::AddHook { by, hook });
+                    }
+                    if n > 0 && hook == n - 1 {
+                        out.push(SAct::RemoveHook { by, hook });
+                    }
+                    continue;
+                }
                 out.push(SAct::AddHook { by, hook });
                 out.push(SAct::RemoveHook { by, hook });
             }
